@@ -266,6 +266,7 @@ func pgUndoCmp(a0, a1 jmap, d *obsDesc, u *undoLog) {
 	if symmetric && (op == "=" || op == "<>") && pgValueKind(a0["lexpr"]) != "" && pgColKey(a0["rexpr"]) != "" {
 		if pgValueKind(a1["lexpr"]) == "" && pgValueKind(a1["rexpr"]) != "" {
 			a0["lexpr"], a0["rexpr"] = a0["rexpr"], a0["lexpr"]
+			u.swapped++
 		}
 	}
 	lkey := pgColKey(a0["lexpr"])
